@@ -1,5 +1,6 @@
 // Driver for C11 (TaskLifecycle.tla): replays API histories (create / pause / resume / delete / get / list with
-// a store fault at the k-th store call, restart, settle) on a real server.MetaCDC built through the verif hooks
+// a store fault at the k-th store call, restart + ReloadTask with a store fault at the k-th store call after the
+// task list, err = an error event of the reader machinery for a task, settle) on a real server.MetaCDC built through the verif hooks
 // over the fakes of verifharness/lifeenv, and logs after every step the call's result and the projected state:
 // the four views of every task's state (API Get and List, store dump, memory snapshot, per-state gauges), the
 // checkpoint records, the per-target entity refcount / quit-func table, live MQ registrations and catalog
@@ -361,7 +362,27 @@ func runPlan(it *item, port int) *result {
 		}
 		switch op {
 		case "restart":
+			// the k-th store call after the task list fails (the list read itself panics by design on an error)
+			if k > 0 {
+				r.env.Store.Arm(k + 1)
+			}
 			lifeenv.Labeled(id, "reload", func() { r.env.CDC.ReloadTask() })
+			fired, n := r.env.Store.Disarm()
+			ev["fired"], ev["ncalls"] = fired, n
+		case "err":
+			// the reader machinery of the task's target reports a failure for the task; the entity's event loop
+			// pauses it (store fault at the k-th store call of that pause)
+			r.env.Store.Arm(k)
+			delivered := r.env.PushError(r.uri(task), r.real[task])
+			if delivered && !r.waitEventHandled() {
+				ev["op"] = "machinery"
+				ev["what"] = "error event not handled within 10 s"
+			}
+			fired, n := r.env.Store.Disarm()
+			ev["fired"], ev["ncalls"], ev["delivered"] = fired, n, delivered
+			if delivered {
+				quiet = true
+			}
 		case "settle":
 			r.settle()
 		case "release":
@@ -454,6 +475,19 @@ func (r *runner) call(op, task string, das bool) (string, error) {
 		return strings.Join(parts, ","), nil
 	}
 	panic("unknown op " + op)
+}
+
+// waitEventHandled waits until the event channels are empty and every event loop is parked in its own select
+// or gone (the loop that took the event has returned from handling it).
+func (r *runner) waitEventHandled() bool {
+	deadline := time.Now().Add(10 * time.Second)
+	for time.Now().Before(deadline) {
+		if r.env.EventsPending() == 0 && lifeenv.EventLoopsBusy() == 0 {
+			return true
+		}
+		time.Sleep(time.Millisecond)
+	}
+	return false
 }
 
 // settle waits until no goroutine of this plan is polling in GetChannelChan (the per-target DML loop has
